@@ -233,6 +233,12 @@ func (ex *Exec) runPath(entry *ssa.Function, w workItem, conc *Violation) (p *Pa
 	ex.path = p
 	ex.steps = 0
 	ex.depth = 0
+	ex.sched = nil
+	ex.curG = nil
+	if ex.goMode == "sched" {
+		ex.sched = newScheduler(ex)
+		defer ex.sched.shutdown()
+	}
 	for _, pkg := range ex.reinit {
 		delete(ex.pkgInit, pkg)
 		for _, m := range pkg.Members {
